@@ -17,7 +17,7 @@ RULE = ('Engine "serial-exhaustive": for each of a list of small DAGs (3-6 nodes
         'warm cache; thorough adds Hypothesis-generated DAGs) a dry run counts the line events executed by the calling thread in '
         'files under labtech/ during run_tasks, then the run is repeated FOR EVERY k with a trace function raising '
         'KeyboardInterrupt at the k-th event (= an interrupt delivered at that line boundary). Engine "serial-pairs": sampled '
-        'pairs k1<k2 (second interrupt). Engine "controlled": Hypothesis DAGs/schedules under the schedule-owning Runner with the '
+        'pairs k1<k2 (second interrupt; under the real backends some executing tasks sit in a catch-all retry loop, so only an uncatchable termination ends them). Engine "controlled": Hypothesis DAGs/schedules under the schedule-owning Runner with the '
         'injector restricted to lab.py (the coordinator\'s interrupt handling) at a drawn k. Engine "fork-sites": under the real fork backend (incl. a DAG with more '
         'ready tasks than workers, so futures queue inside the executor) every distinct line of lab.py / runners/process.py executed by the '
         'PARENT receives an interrupt at its first, middle and last occurrence (located by file:line:occurrence, children untouched); '
@@ -286,6 +286,8 @@ def check_signal(case: dict) -> core.CaseResult:
     seen_sig = set()
     findings = [f for f in findings if not (f.signature in seen_sig or seen_sig.add(f.signature))]
     labels = [f'signal={"double" if double else ("async" if case.get("async") else "single")}', f'signal_backend={spec["lab"]["backend"]}', f'blocked_at_signal={len(st_["blocked_at_signal"])}', f'queued_at_signal={min(len(st_.get("queued_at_signal", [])), 3)}']
+    if double and any(by_name[n].get('mode') == 'stubborn' for n in st_['blocked_at_signal']):
+        labels.append('terminated-task-inside-a-catch-all-retry-loop')
     s = obs.summary()
     s['signal'] = {k: v for k, v in st_.items() if k != 't_first'}
     return core.CaseResult(findings=findings, nontrivial=bool(st_['blocked_at_signal']), labels=tuple(labels), summary=s, stop_search=obs.timeout)
@@ -380,6 +382,10 @@ def signal_case(draw, backend: str = 'fork', only_async: bool = False):
     mode = 'async' if only_async else draw(st.sampled_from(['single', 'double']))
     if only_async:
         sp['lab']['continue_on_failure'] = False
+    if mode == 'double':
+        # some tasks wait inside a catch-all retry loop: only an uncatchable termination ends them "at once"
+        flags = draw(st.lists(st.booleans(), min_size=len(sp['nodes']), max_size=len(sp['nodes'])))
+        sp['nodes'] = [{**n, 'mode': 'stubborn'} if (f and n.get('mode', 'ok') == 'ok') else n for n, f in zip(sp['nodes'], flags)]
     return {'spec': sp, 'rest_index': draw(st.integers(0, 3)), 'double': mode == 'double', 'async': mode == 'async',
             'delay_ms': draw(st.sampled_from([2, 5, 10, 30, 120]))}
 
